@@ -147,7 +147,11 @@ def conform(ctx, execs, tally):
     if rd.get("pulp_status") not in statuses:
         raise HarnessError("conformance: real status %r, model %r; %r\n%s"
                            % (rd.get("pulp_status"), statuses, ctx.tail, ctx.text))
-    if "matching" in rd:
+    junk = any(str(x.get("answer", "")).startswith(("Infeasible", "reject", "fault"))
+               for x in (fake0.obs["solves"] or []))
+    if "matching" in rd and not junk:
+        # (when a solve ended without optimum the values the back end leaves
+        # behind are unspecified, so a text printed from them is not compared)
         want = lprun.mask_times(rtext)
         texts = {lprun.mask_times(e.short_text) for e in execs if e.short_text}
         if want not in texts:
